@@ -92,6 +92,8 @@ where
         // get the address from position 12 on the stack
         let ctx = self.system.ctx();
         let addr = Self::get_valid_address(self.stack.get(12))?;
+        // the second word is located at addr + 1, which must be a valid address as well
+        Self::get_valid_address(Felt::new(addr as u64 + 1))?;
 
         // load two words from memory
         let words = self.chiplets.read_mem_double(ctx, addr);
@@ -108,7 +110,7 @@ where
         }
 
         // increment the address by 2
-        self.stack.set(12, Felt::from(addr + 2));
+        self.stack.set(12, Felt::new(addr as u64 + 2));
 
         // copy over the rest of the stack
         self.stack.copy_state(13);
@@ -191,6 +193,8 @@ where
         // get the address from position 12 on the stack
         let ctx = self.system.ctx();
         let addr = Self::get_valid_address(self.stack.get(12))?;
+        // the second word is located at addr + 1, which must be a valid address as well
+        Self::get_valid_address(Felt::new(addr as u64 + 1))?;
 
         // pop two words from the advice stack
         let words = self.host.borrow_mut().pop_adv_stack_dword(self)?;
@@ -210,7 +214,7 @@ where
         }
 
         // increment the address by 2
-        self.stack.set(12, Felt::from(addr + 2));
+        self.stack.set(12, Felt::new(addr as u64 + 2));
 
         // copy over the rest of the stack
         self.stack.copy_state(13);
